@@ -23,12 +23,30 @@ ALLOWED_AXIOMS = {"propext", "Classical.choice", "Quot.sound"}
 FORBIDDEN = re.compile(r"\bsorry\b|\badmit\b|^axiom |native_decide|bv_decide|implemented_by|\bunsafe |maxHeartbeats 0")
 
 TRUSTED_BASE = [
-    "Lean 4.33.0 kernel (theorems re-elaborated by `lake build` on every run; thorough tier re-checks the .olean files with leanchecker)",
+    "Lean 4.33.0 kernel (theorems re-elaborated by `lake build` on every run; thorough tier replays the declarations of the property modules and of every project-local module they import with leanchecker)",
     "axioms: at most propext, Classical.choice, Quot.sound (audited with #print axioms on every property theorem in every run); no sorry/admit/native_decide/bv_decide/implemented_by/unsafe",
     "Mathlib v4.33.0 (single modules, Proofs/ only)",
     "the model is hand-written (lean/Model, no Mathlib); its tie to /repo is this run's correspondence check: the compiled model (lean/.lake/build/bin/driver) and the real implementation are run on the same inputs and their canonicalised outputs are compared - differential testing, it bounds what was seen",
     "IEEE-754 rounding, numpy/pandas/scipy/h5py runtimes and iterative-solver convergence are modelled or assumed, not verified",
 ]
+
+
+def local_import_closure(modules):
+    """Project-local modules (Model/Generated/Driver/Proofs) reachable from `modules` through `import` lines."""
+    seen, todo = [], list(modules)
+    while todo:
+        m = todo.pop()
+        if m in seen:
+            continue
+        path = os.path.join(LEAN, *m.split(".")) + ".lean"
+        if not os.path.exists(path):
+            continue
+        seen.append(m)
+        for line in open(path, encoding="utf-8"):
+            mm = re.match(r"\s*(?:public\s+)?import\s+([A-Za-z0-9_.]+)", line)
+            if mm and mm.group(1).split(".")[0] in ("Model", "Generated", "Driver", "Proofs"):
+                todo.append(mm.group(1))
+    return sorted(seen)
 
 
 # ---------------------------------------------------------------- numbers on the wire
@@ -424,9 +442,10 @@ def run_check(prop, tier, seed, replay=None):
     if build_ok and tier == "thorough" and not replay:
         # independent re-check of the compiled .olean files of this property's modules
         t1 = time.time()
-        rc, out, err = run(["lake", "env", "leanchecker"] + list(prop.LEAN_MODULES), cwd=LEAN, timeout=3000)
-        leanchecker = {"rc": rc, "seconds": round(time.time() - t1, 1), "output": (out + err)[-500:]}
-        log(f"leanchecker {' '.join(prop.LEAN_MODULES)}: rc={rc} in {leanchecker['seconds']}s")
+        mods = local_import_closure(prop.LEAN_MODULES)      # the lemma / model modules that carry the proofs, not only the top files
+        rc, out, err = run(["lake", "env", "leanchecker"] + mods, cwd=LEAN, timeout=3000)
+        leanchecker = {"rc": rc, "seconds": round(time.time() - t1, 1), "modules": mods, "output": (out + err)[-500:]}
+        log(f"leanchecker on {len(mods)} project modules (closure of {' '.join(prop.LEAN_MODULES)}): rc={rc} in {leanchecker['seconds']}s")
         if rc != 0:
             failures.append(Failure("proof", None, {"leanchecker_failed": leanchecker}))
             discharged = 0
